@@ -277,6 +277,61 @@ pub fn check_case(c: &MetaCase, st: &mut Stats) -> Check {
     if got != folded {
         return Err(Fail::new("meta-vs-fold", format!("metadata differs from the fold over iter(): {}", diff(&got, &folded))));
     }
+    // a section taken after the parent was asked is the mapping of exactly its own bytes
+    if bytes.len() < 60_000 {
+        check_sections(&ls, c, &bytes, st)?;
+    }
+    Ok(())
+}
+
+/// Sections cut at line starts: metadata of `parent.section(r)` (parent already queried) must equal the truth of
+/// the lines inside the range.
+pub fn check_sections(ls: &[L], c: &MetaCase, bytes: &[u8], st: &mut Stats) -> Check {
+    // byte offset of every line start
+    let eol = if c.crlf { 2 } else { 1 };
+    let mut starts = vec![0usize];
+    let mut at = 0usize;
+    for (i, l) in ls.iter().enumerate() {
+        at += line_text(l, i).len();
+        if i + 1 < ls.len() || c.final_eol {
+            at += eol;
+        }
+        starts.push(at.min(bytes.len()));
+    }
+    let n = ls.len();
+    if n < 2 {
+        return Ok(());
+    }
+    let parent = proguard::ProguardMapping::new(bytes);
+    let _ = guarded(|| (parent.has_line_info(), parent.is_valid(), parent.summary().class_count()));
+    let picks = [(0usize, n / 2), (n / 2, n), (1, n), (0, n - 1), (n / 3, 2 * n / 3), (n - 1, n), (0, 1)];
+    for (a, b) in picks {
+        if a >= b {
+            continue;
+        }
+        st.evaluations += 1;
+        let (want, _) = truth(&ls[a..b]);
+        let range = starts[a]..starts[b];
+        let got = guarded(|| {
+            let sec = parent.section(range.clone());
+            let s = sec.summary();
+            Meta {
+                has_line_info: sec.has_line_info(),
+                class_count: s.class_count(),
+                method_count: s.method_count(),
+                compiler: s.compiler().map(|x| x.to_string()),
+                compiler_version: s.compiler_version().map(|x| x.to_string()),
+                min_api: s.min_api(),
+                is_valid: sec.is_valid(),
+            }
+        })
+        .map_err(|p| Fail::new("meta-panic", p))?;
+        // line texts embed the absolute line index; class/method counts and flags do not depend on it
+        if got != want {
+            return Err(Fail::new("section-meta", format!("section of lines {a}..{b} (bytes {range:?}) taken after the parent was queried: {}", diff(&got, &want))).with(json!({"lines": [a, b]})));
+        }
+        st.class("section() metadata after the parent was queried");
+    }
     Ok(())
 }
 
